@@ -1,5 +1,7 @@
 package x509
 
+import "time"
+
 // H20-ber: two goroutines converting separate BER inputs share no writable state.
 //
 //verif:property C20
@@ -14,5 +16,42 @@ func zzH_c20_ber_parallel() {
 	var e1, e2 error
 	vParallel(func() { _, e1 = ber2der(a) }, func() { _, e2 = ber2der(b) })
 	vAssert("both-ok", e1 == nil && e2 == nil)
+	vReach("end")
+}
+
+// H20-certpool: two goroutines verifying different leaves against the same root and
+// intermediate pools: the pools and their certificates are only read, and each verdict is
+// the one a sequential run gives.
+//
+//verif:property C20
+//verif:expect-reach end
+//verif:bound two leaves L1, L2 (issued by the intermediate I or the root R, concrete fork), one shared intermediate pool {I} and root pool {R}; per certificate symbolic expired/BasicConstraintsValid/IsCA/pathLen, signature relation between all pairs symbolic; footprint + lock-set check over everything allocated before the two threads start, then the same two verifications run sequentially and the verdicts compared
+//verif:outside signature algorithms ((*Certificate).CheckSignature stubbed by the relation); system roots; more than two goroutines
+//verif:stub (*github.com/tjfoc/gmsm/x509.Certificate).CheckSignature zzStubPKISig
+//verif:stub net.ParseIP zzStubParseIP
+//verif:unwind 40
+func zzH_c20_certpool() {
+	const s1, s2, sI, sR = 0x11, 0x14, 0x12, 0x13
+	for i := 1; i <= 4; i++ {
+		for j := 1; j <= 4; j++ {
+			zzPKISig[i][j] = vBool("sig")
+		}
+	}
+	iss := [2]byte{sI, sR}
+	L1 := zzPKINewCert(1, "L1", s1, []byte{iss[vChoice("L1.issuer", 2)]})
+	I := zzPKINewCert(2, "I", sI, []byte{sR})
+	R := zzPKINewCert(3, "R", sR, []byte{sR})
+	L2 := zzPKINewCert(4, "L2", s2, []byte{iss[vChoice("L2.issuer", 2)]})
+	roots, inter := NewCertPool(), NewCertPool()
+	roots.AddCert(R.c)
+	inter.AddCert(I.c)
+	opts := VerifyOptions{Roots: roots, Intermediates: inter, CurrentTime: time.Unix(1500, 0), KeyUsages: []ExtKeyUsage{ExtKeyUsageAny}}
+	var e1, e2 error
+	var c1, c2 [][]*Certificate
+	vParallel(func() { c1, e1 = L1.c.Verify(opts) }, func() { c2, e2 = L2.c.Verify(opts) })
+	s1c, s1e := L1.c.Verify(opts)
+	s2c, s2e := L2.c.Verify(opts)
+	vAssert("concurrent-verdict-equals-sequential", (e1 == nil) == (s1e == nil) && (e2 == nil) == (s2e == nil))
+	vAssert("concurrent-chains-equal-sequential", len(c1) == len(s1c) && len(c2) == len(s2c))
 	vReach("end")
 }
